@@ -250,6 +250,18 @@ theorem runGauge_inv (g : Gauge) (hist : List (Int × DistData)) (hg : GInv g) :
     have := ih (triggerOrRevert g now d) (triggerOrRevert_inv g now d hg)
     exact ⟨this.1, by show (runGauge (triggerOrRevert g now d) xs).deposit = _; rw [this.2, triggerOrRevert_deposit]⟩
 
+theorem runGauge_total (g0 : Gauge) (hist : List (Int × DistData)) : (runGauge g0 hist).total = g0.total := by
+  induction hist generalizing g0 with
+  | nil => rfl
+  | cons x xs ih =>
+    obtain ⟨now, d⟩ := x
+    show (runGauge (triggerOrRevert g0 now d) xs).total = _
+    rw [ih]
+    unfold triggerOrRevert
+    split
+    · rename_i g' s h; exact (trigger_deposit g0 g' now d s h).2
+    · rfl
+
 /-! ## ledger -/
 
 theorem remGauges_append (gs : List Gauge) (g : Gauge) : remGauges (gs ++ [g]) = remGauges gs + gaugeRem g := by
